@@ -1,9 +1,9 @@
 #!/bin/sh
-# usage: tools/sweep.sh <tier> <seed>...   -- runs every check, prints one line per check
+# usage: [CHECKS="01 07"] tools/sweep.sh <tier> <seed>...   -- runs every (or the listed) check, prints one line per check
 cd "$(dirname "$0")/.."
 tier=$1; shift
 for seed in "$@"; do
-  for i in 01 02 03 04 05 06 07 08 09 10 11 12 13 14 15 16 17 18 19 20; do
+  for i in ${CHECKS:-01 02 03 04 05 06 07 08 09 10 11 12 13 14 15 16 17 18 19 20}; do
     out=$(VERIF_SEED=$seed ./check C$i --tier $tier 2>&1); rc=$?
     echo "seed=$seed C$i rc=$rc $(echo "$out" | grep -E '^\[C' | head -1)"
     if [ $rc -ne 0 ]; then echo "$out" | grep -E "^(VIOLATION|INCONCLUSIVE|  case)" | head -5; fi
